@@ -94,6 +94,7 @@ class Ctx:
         self.quick = tier == "quick"
         self.evaluations = 0
         self.distinct = 0
+        self.distinct_groups = {}   # kind -> {label: n}; same cases re-run in another build are not counted twice
         self.rule = ""
         self.samples = []
         self.counters = {}
@@ -131,6 +132,13 @@ class Ctx:
                     self.count(prefix + k, v)
             elif isinstance(v, dict):
                 self.merge_counters(v, prefix + k + ".")
+
+    def add_distinct(self, kind, label, n):
+        """Distinct non-trivial cases of one kind observed in one configuration. The same cases
+        run again in another configuration (build profile, interpreter) are the same cases: per
+        kind the largest configuration counts; different kinds of cases add up."""
+        g = self.distinct_groups.setdefault(kind, {})
+        g[label] = g.get(label, 0) + n
 
     def violation(self, kind, detail, signature, replay):
         self.violations.append({"kind": kind, "detail": detail, "signature": signature, "replay": replay})
@@ -184,15 +192,15 @@ class Ctx:
             return 0
         return int(out.strip())
 
-    def absorb_reports(self, reports, prop_key=None, binary=None, outs=None):
+    def absorb_reports(self, reports, prop_key=None, binary=None, outs=None, label="run"):
         """Adds evaluations / counters / samples / this property's violations of layoutmon reports."""
         prop_key = prop_key or self.pid
         if binary and outs:
-            self.distinct += self.count_distinct(binary, outs, prop_key)
+            self.add_distinct("histories", label, self.count_distinct(binary, outs, prop_key))
         for r in reports:
             self.evaluations += r.get("evaluations", 0)
             if not (binary and outs):
-                self.distinct += r.get("distinct_nontrivial", {}).get(prop_key, 0)
+                self.add_distinct("histories", label, r.get("distinct_nontrivial", {}).get(prop_key, 0))
             self.merge_counters(r.get("stats", {}))
             for s in r.get("samples", []):
                 if len(self.samples) < 8:
@@ -212,6 +220,8 @@ class Ctx:
 
     # ---- verdict -------------------------------------------------------------------------
     def finish(self, wall, spec):
+        if self.distinct_groups:
+            self.distinct += sum(max(g.values()) for g in self.distinct_groups.values())
         known = [k for k in load_known() if k.get("property") == self.pid]
         new = []
         known_hit = {}
